@@ -203,6 +203,7 @@ def run(ctx, P):
     from . import r2
     r2.purges_keep_other_commands(ctx, P, "C09g")
     r2.interface_rules(ctx, P, "C09h", want=("registry",))
+    r2.status_never_forgotten(ctx, P, "C09i")
     clause_a(ctx, P)
     clause_b(ctx, P)
     clause_c(ctx, P)
